@@ -132,6 +132,7 @@ fn run_generic(env: &mut Env, target: Target) -> Outcome {
 
     let mut reference: Vec<u8> = Vec::new();
     let mut unfinished: Option<(Vec<u8>, usize)> = None;
+    let mut error_reported = false;
     // a caller whose write failed may well try the same message again
     let retry_same = ctxrc.borrow_mut().chance("same_message_again_after_an_error", 1, 2);
     for i in 0..payloads.len() {
@@ -199,11 +200,13 @@ fn run_generic(env: &mut Env, target: Target) -> Outcome {
                 reference.extend_from_slice(&frame);
             }
             Err(e) => {
-                if !harmful_fired && unfinished.is_none() {
+                if !harmful_fired && unfinished.is_none() && !error_reported {
                     return viol("c14/spurious-error", &format!("{} {}", if is_tpkt { "tpkt" } else { "link" }, err_kind(&e)), format!("write of {} bytes failed with {} although the stream only shortened writes", p.len(), err_kind(&e)));
                 }
+                error_reported = true;
                 if !harmful_fired {
-                    // refused because an earlier frame was left unfinished: nothing may have been emitted
+                    // refused because of an earlier reported error (a frame left unfinished, or a link given up): nothing may
+                    // have been emitted
                     if !emitted.is_empty() && resumes.is_none() {
                         return viol("c14/misframed-on-error", if is_tpkt { "tpkt" } else { "link" }, format!("write refused with {} after an earlier failure, yet {} bytes were emitted", err_kind(&e), emitted.len()));
                     }
